@@ -30,11 +30,95 @@ template <class T> struct StAcc {
   reference access(data_handle_type p, size_t i) const noexcept { accessLog().push_back({static_cast<long long>(p - const_cast<const int*>(arena().base)), static_cast<long long>(i)}); return p[i]; }
   data_handle_type offset(data_handle_type p, size_t i) const noexcept { accessLog().push_back({-1 - static_cast<long long>(p - const_cast<const int*>(arena().base)), static_cast<long long>(i)}); return p + i; }
 };
+// ---- an accessor with a non-pointer data handle and a proxy reference
+struct PxHandle { long off = 0; };
+template <class T> struct Proxy {
+  long addr;
+  operator T() const noexcept { return arena().base[addr]; }
+  const Proxy& operator=(std::remove_const_t<T> v) const noexcept { arena().base[addr] = v; return *this; }
+};
+template <class T> struct PxAcc {
+  using offset_policy = PxAcc; using element_type = T; using reference = Proxy<T>; using data_handle_type = PxHandle;
+  int id = 0;
+  constexpr PxAcc() noexcept = default;
+  constexpr explicit PxAcc(int i) noexcept : id(i) {}
+  template <class U, class = std::enable_if_t<std::is_convertible<U (*)[], T (*)[]>::value>> constexpr PxAcc(const PxAcc<U>& o) noexcept : id(o.id) {}
+  reference access(data_handle_type h, size_t i) const noexcept { accessLog().push_back({h.off, static_cast<long long>(i)}); return reference{h.off + static_cast<long>(i)}; }
+  data_handle_type offset(data_handle_type h, size_t i) const noexcept { accessLog().push_back({-1 - h.off, static_cast<long long>(i)}); return data_handle_type{h.off + static_cast<long>(i)}; }
+};
+// ---- an empty accessor over an EMPTY data handle type (elements live at the arena base)
+struct EmptyHandle {};
+template <class T> struct EhAcc {
+  using offset_policy = EhAcc; using element_type = T; using reference = T&; using data_handle_type = EmptyHandle;
+  constexpr EhAcc() noexcept = default;
+  constexpr explicit EhAcc(int) noexcept {}
+  template <class U, class = std::enable_if_t<std::is_convertible<U (*)[], T (*)[]>::value>> constexpr EhAcc(const EhAcc<U>&) noexcept {}
+  reference access(data_handle_type, size_t i) const noexcept { return arena().base[i]; }
+  data_handle_type offset(data_handle_type, size_t) const noexcept { return {}; }
+};
+// ---- a decoy: stateless, raw-pointer handle, plain reference - but access() is NOT p[i] (shifted by 1000 elements)
+template <class T> struct ShiftAcc {
+  using offset_policy = ShiftAcc; using element_type = T; using reference = T&; using data_handle_type = T*;
+  constexpr ShiftAcc() noexcept = default;
+  constexpr explicit ShiftAcc(int) noexcept {}
+  template <class U, class = std::enable_if_t<std::is_convertible<U (*)[], T (*)[]>::value>> constexpr ShiftAcc(const ShiftAcc<U>&) noexcept {}
+  constexpr reference access(data_handle_type p, size_t i) const noexcept { return p[i + 1000]; }
+  constexpr data_handle_type offset(data_handle_type p, size_t i) const noexcept { return p + i; }
+};
 template <class A> int accId(const A&) { return -1; }
 template <class T> int accId(const StAcc<T>& a) { return a.id; }
+template <class T> int accId(const PxAcc<T>& a) { return a.id; }
+// handles as offsets from the arena base
+template <class T> long hOff(T* p) { return static_cast<long>(p - const_cast<const int*>(arena().base)); }
+inline long hOff(PxHandle h) { return h.off; }
+inline long hOff(EmptyHandle) { return 0; }
+template <class H> struct MkHandle { static H at(long off) { return arena().base + off; } };
+template <> struct MkHandle<PxHandle> { static PxHandle at(long off) { return PxHandle{off}; } };
+template <> struct MkHandle<EmptyHandle> { static EmptyHandle at(long) { return {}; } };
+inline long refAddr(const int& r) { return static_cast<long>(&r - const_cast<const int*>(arena().base)); }
+template <class T> long refAddr(Proxy<T> p) { return p.addr; }
+
+// ---- a user-defined layout policy: offset = 1 + 2 * row-major offset; records the indices it receives
+inline std::vector<long long>& lastIdx() { static std::vector<long long> v; return v; }
+struct LogLayout {
+  template <class E> struct mapping {
+    using extents_type = E; using index_type = typename E::index_type; using size_type = typename E::size_type; using rank_type = typename E::rank_type; using layout_type = LogLayout;
+    md::layout_right::mapping<E> inner;
+    constexpr mapping() noexcept = default;
+    constexpr mapping(const E& e) noexcept : inner(e) {}
+    template <class F, class = std::enable_if_t<std::is_constructible<E, F>::value>> constexpr mapping(const mapping<F>& o) noexcept : inner(o.inner) {}
+    constexpr const E& extents() const noexcept { return inner.extents(); }
+    constexpr index_type required_span_size() const noexcept { return inner.required_span_size() == 0 ? 0 : static_cast<index_type>(2 * inner.required_span_size()); }
+    template <class... I> index_type operator()(I... i) const noexcept { lastIdx() = {static_cast<long long>(i)...}; return static_cast<index_type>(1 + 2 * inner(i...)); }
+    static constexpr bool is_always_unique() noexcept { return true; } static constexpr bool is_always_exhaustive() noexcept { return false; } static constexpr bool is_always_strided() noexcept { return true; }
+    static constexpr bool is_unique() noexcept { return true; } static constexpr bool is_exhaustive() noexcept { return false; } static constexpr bool is_strided() noexcept { return true; }
+    constexpr index_type stride(rank_type r) const noexcept { return static_cast<index_type>(2 * inner.stride(r)); }
+    template <class F> friend constexpr bool operator==(const mapping& a, const mapping<F>& b) noexcept { return a.inner == b.inner; }
+  };
+};
 
 // a class type convertible to an index type (nothrow)
 template <class I> struct IdxLike { I v; constexpr operator I() const noexcept { return v; } };
+
+template <class E, size_t SP> struct MapOf<KUser, E, SP> { using type = LogLayout::mapping<E>; };
+// ---- a second decoy layout: always unique and always exhaustive, but NOT the identity: reversed row-major
+struct RevLayout {
+  template <class E> struct mapping {
+    using extents_type = E; using index_type = typename E::index_type; using size_type = typename E::size_type; using rank_type = typename E::rank_type; using layout_type = RevLayout;
+    md::layout_right::mapping<E> inner;
+    constexpr mapping() noexcept = default;
+    constexpr mapping(const E& e) noexcept : inner(e) {}
+    template <class F, class = std::enable_if_t<std::is_constructible<E, F>::value>> constexpr mapping(const mapping<F>& o) noexcept : inner(o.inner) {}
+    constexpr const E& extents() const noexcept { return inner.extents(); }
+    constexpr index_type required_span_size() const noexcept { return inner.required_span_size(); }
+    template <class... I> constexpr index_type operator()(I... i) const noexcept { return static_cast<index_type>(inner.required_span_size() - 1 - inner(i...)); }
+    static constexpr bool is_always_unique() noexcept { return true; } static constexpr bool is_always_exhaustive() noexcept { return true; } static constexpr bool is_always_strided() noexcept { return false; }
+    static constexpr bool is_unique() noexcept { return true; } static constexpr bool is_exhaustive() noexcept { return true; } static constexpr bool is_strided() noexcept { return false; }
+    constexpr index_type stride(rank_type r) const noexcept { return inner.stride(r); }
+    template <class F> friend constexpr bool operator==(const mapping& a, const mapping<F>& b) noexcept { return a.inner == b.inner; }
+  };
+};
+template <class E, size_t SP> struct MapOf<KRev, E, SP> { using type = RevLayout::mapping<E>; };
 
 #if MDSPAN_USE_BRACKET_OPERATOR
 #define VH_AT(m, ...) m[__VA_ARGS__]
@@ -44,7 +128,7 @@ template <class I> struct IdxLike { I v; constexpr operator I() const noexcept {
 
 template <class MDS> std::string obsView(const MDS& m) {
   using I = typename MDS::index_type; constexpr size_t R = MDS::rank();
-  std::string s = "h=" + std::to_string(static_cast<long long>(m.data_handle() - const_cast<const int*>(arena().base)));
+  std::string s = "h=" + std::to_string(hOff(m.data_handle()));
   s += " e=" + extList(m.extents()) + " s=";
   std::array<I, R> st{}; if constexpr (R > 0) for (size_t r = 0; r < R; r++) st[r] = m.stride(r);
   s += list(st) + " acc=" + std::to_string(accId(m.accessor()));
@@ -59,37 +143,43 @@ template <class MDS> std::string obsView(const MDS& m) {
   return s;
 }
 
-template <class MDS, class S, size_t... K> auto atPack(const MDS& m, const std::vector<long long>& v, std::index_sequence<K...>) -> decltype(&VH_AT(m, static_cast<S>(v[K])...)) {
-  return &VH_AT(m, static_cast<S>(v[K])...);
+template <class MDS, class S, size_t... K> long atPack(const MDS& m, const std::vector<long long>& v, std::index_sequence<K...>) {
+  return refAddr(VH_AT(m, static_cast<S>(v[K])...));
 }
-template <class MDS, class S, size_t... K> auto atCls(const MDS& m, const std::vector<long long>& v, std::index_sequence<K...>) {
-  return &VH_AT(m, IdxLike<S>{static_cast<S>(v[K])}...);
+template <class MDS, class S, size_t... K> long atCls(const MDS& m, const std::vector<long long>& v, std::index_sequence<K...>) {
+  return refAddr(VH_AT(m, IdxLike<S>{static_cast<S>(v[K])}...));
 }
-template <class MDS, class S> const int* atForm(const MDS& m, const std::string& form, const std::vector<long long>& v) {
+template <class MDS, size_t... K> void wrPack(const MDS& m, const std::vector<long long>& v, int val, std::index_sequence<K...>) {
+  VH_AT(m, static_cast<long>(v[K])...) = val;
+}
+template <class MDS, class S> long atForm(const MDS& m, const std::string& form, const std::vector<long long>& v) {
   constexpr size_t R = MDS::rank();
   if (form == "pack") return atPack<MDS, S>(m, v, std::make_index_sequence<R>());
+  if (form == "br1") {      // the single-index operator[]: the pack form with the bracket operator, the rank-1 fallback without it
+    if constexpr (R == 1) return refAddr(m[static_cast<S>(v[0])]); else return -1000000;
+  }
   if (form == "cls") return atCls<MDS, S>(m, v, std::make_index_sequence<R>());
   std::array<S, R> a{}; for (size_t k = 0; k < R; k++) a[k] = static_cast<S>(v[k]);
   if (form == "arr") {
 #if MDSPAN_USE_BRACKET_OPERATOR
-    return &m[a];
+    return refAddr(m[a]);
 #else
-    return &m(a);
+    return refAddr(m(a));
 #endif
   }
 #ifdef VH_HAS_SPAN
   if (form == "span") {
     std::span<S, R> sp(a.data(), R);
 #if MDSPAN_USE_BRACKET_OPERATOR
-    return &m[sp];
+    return refAddr(m[sp]);
 #else
-    return &m(sp);
+    return refAddr(m(sp));
 #endif
   }
 #endif
-  return nullptr;
+  return -1000000;
 }
-template <class MDS> const int* atTyped(const MDS& m, const std::string& form, const std::string& ity, const std::vector<long long>& v) {
+template <class MDS> long atTyped(const MDS& m, const std::string& form, const std::string& ity, const std::vector<long long>& v) {
   if (ity == "i8") return atForm<MDS, signed char>(m, form, v);
   if (ity == "u8") return atForm<MDS, unsigned char>(m, form, v);
   if (ity == "i16") return atForm<MDS, short>(m, form, v);
@@ -98,7 +188,7 @@ template <class MDS> const int* atTyped(const MDS& m, const std::string& form, c
   if (ity == "u32") return atForm<MDS, unsigned>(m, form, v);
   if (ity == "i64") return atForm<MDS, long>(m, form, v);
   if (ity == "u64") return atForm<MDS, unsigned long>(m, form, v);
-  return nullptr;
+  return -1000000;
 }
 
 template <class E, class S, size_t... K> auto packExt(const std::vector<long long>& v, std::index_sequence<K...>) { return std::make_tuple(static_cast<S>(v[K])...); }
@@ -112,7 +202,8 @@ template <Kind K, class E, size_t SP, class A, class MDS2> void regView(const st
     arena().reset(); accessLog().clear();
     std::string out; bool first = true;
     auto emit = [&](const std::string& s) { if (!first) out += " | "; out += s; first = false; };
-    int* base = arena().base;
+    using H = typename MDS::data_handle_type;
+    int* base = arena().base; (void)base;
     for (const std::string& cmd : splitStr(o.get("seq"), '/')) {
       auto a = splitStr(cmd, ':'); const std::string& c = a[0];
       auto num_ = [&](size_t k) { return k < a.size() ? parseNum(a[k]) : 0LL; };
@@ -121,7 +212,7 @@ template <Kind K, class E, size_t SP, class A, class MDS2> void regView(const st
       if (c == "un") { arena().unprotect(); continue; }
       if (c == "cpd" || c == "cpa" || c == "cad" || c == "caa" || c == "csd" || c == "csa") {
         if constexpr (std::is_constructible_v<M, E> && std::is_default_constructible_v<A>) {
-          size_t s = num_(1); int* p = base + num_(2); auto v = lst(3);
+          size_t s = num_(1); H p = MkHandle<H>::at(num_(2)); auto v = lst(3);
           constexpr size_t ND = E::rank_dynamic(), NA = E::rank();
           bool dyn = c[2] == 'd'; if (v.size() != (dyn ? ND : NA)) { emit("bad-args"); continue; }
           if (c[1] == 'p') {
@@ -141,11 +232,11 @@ template <Kind K, class E, size_t SP, class A, class MDS2> void regView(const st
         } else emit("no-ctor");
         continue;
       }
-      if (c == "cex") { if constexpr (std::is_constructible_v<M, const E&> && std::is_default_constructible_v<A>) pool[num_(1)].emplace(base + num_(2), makeExt<E>(o.ext)); else emit("no-ctor"); continue; }
-      if (c == "cmp") { if constexpr (std::is_default_constructible_v<A>) pool[num_(1)].emplace(base + num_(2), makeMap<K, E, SP>(o)); continue; }
+      if (c == "cex") { if constexpr (std::is_constructible_v<M, const E&> && std::is_default_constructible_v<A>) pool[num_(1)].emplace(MkHandle<H>::at(num_(2)), makeExt<E>(o.ext)); else emit("no-ctor"); continue; }
+      if (c == "cmp") { if constexpr (std::is_default_constructible_v<A>) pool[num_(1)].emplace(MkHandle<H>::at(num_(2)), makeMap<K, E, SP>(o)); continue; }
       if (c == "cma") {
-        if constexpr (std::is_constructible_v<A, int>) pool[num_(1)].emplace(base + num_(2), makeMap<K, E, SP>(o), A(static_cast<int>(num_(3))));
-        else pool[num_(1)].emplace(base + num_(2), makeMap<K, E, SP>(o), A());
+        if constexpr (std::is_constructible_v<A, int>) pool[num_(1)].emplace(MkHandle<H>::at(num_(2)), makeMap<K, E, SP>(o), A(static_cast<int>(num_(3))));
+        else pool[num_(1)].emplace(MkHandle<H>::at(num_(2)), makeMap<K, E, SP>(o), A());
         continue;
       }
       if (c == "cp") { if (pool[num_(2)]) pool[num_(1)].emplace(*pool[num_(2)]); else pool[num_(1)].reset(); continue; }
@@ -159,14 +250,16 @@ template <Kind K, class E, size_t SP, class A, class MDS2> void regView(const st
       if (c == "at") {
         if (!pool[num_(1)]) { emit("none"); continue; }
         accessLog().clear();
-        const int* p = atTyped(*pool[num_(1)], a[2], a[3], lst(4));
-        std::string s = p ? "a=" + std::to_string(static_cast<long long>(p - base)) : std::string("no-form");
+        lastIdx().clear();
+        long p = atTyped(*pool[num_(1)], a[2], a[3], lst(4));
+        std::string s = p != -1000000 ? "a=" + std::to_string(p) : std::string("no-form");
+        if (K == KUser) s += " ix=" + list(lastIdx());
         if (!accessLog().empty()) s += " log=" + std::to_string(accessLog()[0].first) + "," + std::to_string(accessLog()[0].second) + " n=" + std::to_string(accessLog().size());
         emit(s); continue;
       }
       if (c == "wr") {
         if (!pool[num_(1)]) { emit("none"); continue; }
-        int* p = const_cast<int*>(atTyped(*pool[num_(1)], "pack", "i64", lst(3))); *p = static_cast<int>(num_(2)); continue;
+        wrPack(*pool[num_(1)], lst(3), static_cast<int>(num_(2)), std::make_index_sequence<E::rank()>()); continue;
       }
       if (c == "df") {
         std::string s = "df="; bool any = false;
